@@ -272,12 +272,34 @@ def check_dump(case, ctx):
                    {'value': canon(value), 'options': kw, 'text': want[:200]})
     d = scratch()
     results = []
-    for sink_kind in ('filename', 'Path', 'text_stream', 'StringIO'):
+    for sink_kind in ('filename', 'Path', 'text_stream', 'StringIO', 'text_stream_in_use',
+                      'StringIO_second_dump', 'appending_text_stream'):
         path = os.path.join(d, 'out_%s' % sink_kind)
         if os.path.exists(path):
             os.remove(path)
+        expect = want_bytes
         try:
-            if sink_kind == 'filename':
+            if sink_kind == 'text_stream_in_use':
+                # a stream the caller has already written to: exactly the text
+                # of dumps is added
+                with open(path, 'w', encoding='utf-8', newline='') as f:
+                    f.write('# header\n')
+                    dump(value, f, **kw)
+                expect = b'# header\n' + want_bytes
+            elif sink_kind == 'StringIO_second_dump':
+                s = io.StringIO()
+                dump(value, s, **kw)
+                dump(value, s, **kw)
+                with open(path, 'wb') as f:
+                    f.write(s.getvalue().encode('utf-8'))
+                expect = want_bytes + want_bytes
+            elif sink_kind == 'appending_text_stream':
+                with open(path, 'w', encoding='utf-8', newline='') as f:
+                    f.write('x: 1\n')
+                with open(path, 'a', encoding='utf-8', newline='') as f:
+                    dump(value, f, **kw)
+                expect = b'x: 1\n' + want_bytes
+            elif sink_kind == 'filename':
                 dump(value, path, **kw)
             elif sink_kind == 'Path':
                 dump(value, pathlib.Path(path), **kw)
@@ -296,10 +318,10 @@ def check_dump(case, ctx):
             return
         with open(path, 'rb') as f:
             got = f.read()
-        if got != want_bytes:
+        if got != expect:
             ctx.finding('dump', '%s:bytes_differ' % sink_kind,
-                        'dump to %s wrote %r\n  dumps returned %r\n  options: %s json=%s\n  value: %s\n  model: %s'
-                        % (sink_kind, got, want_bytes, kw, case['json'], canon(value), spec))
+                        'dump to %s: the sink holds %r\n  expected (dumps returned %r) %r\n  options: %s json=%s\n  value: %s\n  model: %s'
+                        % (sink_kind, got, want_bytes, expect, kw, case['json'], canon(value), spec))
             return
 
 
